@@ -32,6 +32,7 @@ func init() {
 		c19OriginRule(c)
 		c19ValidatorDiscipline(c)
 		c19VerdictMemo(c)
+		memoKeyRule(c, "memo-key", func(pk string) bool { return strings.HasPrefix(pk, "consensus/propeller") })
 		c19UnitComplete(c)
 		c19ValidateOrder(c)
 		c19UntrustedLength(c)
